@@ -4,7 +4,8 @@
 (* A geoh5 file is modelled at the ITEM level: every attribute, every link (flat container,     *)
 (* flat entry, Root link, Type link, child container, child link, property-group block) and     *)
 (* every dataset (Data, Vertices, Cells, Color map, Value map) of the file is one element of    *)
-(* Items(file).  One behaviour = a small build history (AddGroup / AddObject / AddData / AddPG,  *)
+(* Items(file).  One behaviour = a small build history (AddGroup / AddDrillGroup / AddObject /   *)
+(* AddData / AddPG,                                                                              *)
 (* the operations of the public API that produce the file), then ONE fault DeleteItem(i), then  *)
 (* Open, whose result is computed by a model of the reader (h5_reader.py + workspace.py).       *)
 (*                                                                                              *)
@@ -16,17 +17,19 @@
 (* geoh5_file_format.textile (see Class below).                                                 *)
 (*                                                                                              *)
 (* Entities: -1 = the project header (attributes of /GEOSCIENCE), 0 = the root group,           *)
-(* 1..Len(file.nodes) = groups, objects and data in creation order.  Types and property groups  *)
-(* are not entities of their own: a type is described through the entities that link to it      *)
-(* (the Type child of an entity node IS the type node, a hard link), a property group through   *)
-(* the object that owns the block.                                                              *)
+(* 1..Len(file.nodes) = groups, objects and data in creation order, 100 + p = property group p  *)
+(* (a child of the object that owns its block).  Types are not entities of their own: a type is *)
+(* described through the entities that link to it (the Type child of an entity node IS the type *)
+(* node, a hard link).                                                                          *)
 EXTENDS Integers, Sequences, FiniteSets, TLC, TLCExt, Json
 
 CONSTANTS
     MaxGroups, MaxObjects, MaxData, MaxPGs,   \* bounds of the build histories
+    MaxDrill,       \* 0 or 1: a DrillholeGroup holding one drillhole with a depth log (concatenated storage)
     ObjClasses,     \* subset of {"Points", "Curve", "Surface", "Grid2D"}
     Prims,          \* subset of {"float", "floatcmap", "int", "ref", "text"}
     ShareTypes,     \* TRUE: a new data may re-use the data type of an earlier data of the same primitive
+    UnnamedPGs,     \* TRUE: a property group may be created without a name (default name of the class)
     Deviations      \* {} = ideal reader ; {"RebuildRootFlatOrder"} = Workspace.fetch_or_create_root as built
 
 VARIABLES file, stage, phase, item, outcome
@@ -42,7 +45,11 @@ Ty(tk, cls, cmap, vmap) == [tk |-> tk, cls |-> cls, cmap |-> cmap, vmap |-> vmap
 EmptyFile == [nodes |-> <<>>, types |-> <<Ty("group", "NoType", FALSE, FALSE)>>, pgs |-> <<>>]
 
 Nodes(f) == 1..Len(f.nodes)
-Ents(f) == {Proj, Root} \cup Nodes(f)
+PgBase == 100
+PgEnt(p) == PgBase + p
+PGsOf(f, o) == {p \in 1..Len(f.pgs) : f.pgs[p].obj = o}
+PgEnts(f, o) == {PgEnt(p) : p \in PGsOf(f, o)}          \* the property groups an object lists
+Ents(f) == {Proj, Root} \cup Nodes(f) \cup {PgEnt(p) : p \in 1..Len(f.pgs)}
 KindOf(f, e) == IF e = Root THEN "group" ELSE f.nodes[e].kind
 ClsOf(f, e) == IF e = Root THEN "Root" ELSE f.nodes[e].cls
 TypeOf(f, e) == IF e = Root THEN 1 ELSE f.nodes[e].ty
@@ -51,18 +58,29 @@ GroupNodes(f) == {n \in Nodes(f) : f.nodes[n].kind = "group"}
 ObjectNodes(f) == {n \in Nodes(f) : f.nodes[n].kind = "object"}
 DataNodes(f) == {n \in Nodes(f) : f.nodes[n].kind = "data"}
 Children(f, e) == {n \in Nodes(f) : f.nodes[n].parent = e}
+\* Concatenated storage (format v2): the holes of a DrillholeGroup and their logs have no node of their own, they
+\* are rows of the datasets under <group>/Concatenated Data (shared/concatenation/concatenator.py); a hole is an
+\* entity (its logs and depth tables are read through it and are part of its content) but owns no item.
+CatNodes(f) == {n \in Nodes(f) : f.nodes[n].cls = "Drillhole"}
+Stored(f) == Nodes(f) \ CatNodes(f)                     \* entities with a node in a flat container
+DrillGroups(f) == {n \in Nodes(f) : f.nodes[n].cls = "DrillholeGroup"}
+ContGroups(f) == {n \in Nodes(f) : f.nodes[n].cls = "ContainerGroup"}
+Holes(f, g) == Children(f, g) \cap CatNodes(f)
 RECURSIVE Desc(_, _)      \* proper descendants of a set of entities
-Desc(f, S) == LET C == UNION {Children(f, e) : e \in S} IN IF C = {} THEN {} ELSE C \cup Desc(f, C)
+Desc(f, S) == LET C == UNION {Children(f, e) \cup PgEnts(f, e) : e \in S} IN IF C = {} THEN {} ELSE C \cup Desc(f, C)
 RECURSIVE Anc(_, _)       \* proper ancestors of a node, the root included
 Anc(f, n) == IF n = Root THEN {} ELSE {f.nodes[n].parent} \cup Anc(f, f.nodes[n].parent)
+\* the data types of the concatenated logs are looked up in Types/Data types by the "Type ID" of their record
 Users(f, t) == {e \in {Root} \cup Nodes(f) : TypeOf(f, e) = t}
+               \cup (IF f.types[t].cls \in {"catdepth", "catlog"} THEN CatNodes(f) ELSE {})
 Flat(kind) == CASE kind = "group" -> "Groups" [] kind = "object" -> "Objects" [] kind = "data" -> "Data"
 \* links held by the child container `c` of entity e
-ContLinks(f, e, c) == {n \in Children(f, e) : Flat(f.nodes[n].kind) = c}
-ChildConts(f, e) == CASE KindOf(f, e) = "group" -> {"Data", "Groups", "Objects"}
+ContLinks(f, e, c) == {n \in Children(f, e) \cap Stored(f) : Flat(f.nodes[n].kind) = c}
+ChildConts(f, e) == CASE ClsOf(f, e) = "DrillholeGroup" -> {"Data", "Groups"}
+                      [] ClsOf(f, e) = "Drillhole" -> {}
+                      [] KindOf(f, e) = "group" -> {"Data", "Groups", "Objects"}
                       [] KindOf(f, e) = "object" -> {"Data"}
                       [] OTHER -> {}
-PGsOf(f, o) == {p \in 1..Len(f.pgs) : f.pgs[p].obj = o}
 
 \* attribute names as written by geoh5py (h5_writer.py write_attributes / entity _attribute_map);
 \* the harness discovers the real list with raw h5py and refuses any name that is not listed here.
@@ -78,6 +96,7 @@ EAttrs(f, e) ==
       [] OTHER -> BaseAttrs \cup {"Last focus"}
 Datasets(f, e) ==
     CASE KindOf(f, e) = "data" -> {"Data"}
+      [] ClsOf(f, e) = "DrillholeGroup" -> {"Concatenated object IDs"}
       [] ClsOf(f, e) = "Points" -> {"Vertices"}
       [] ClsOf(f, e) \in {"Curve", "Surface"} -> {"Vertices", "Cells"}
       [] OTHER -> {}
@@ -87,6 +106,14 @@ TAttrs(f, t) ==
       [] f.types[t].tk = "object" -> {"Description", "ID", "Name"}
       [] OTHER -> {"Description", "Hidden", "ID", "Mapping", "Name", "Primitive type", "Transparent no data"}
 TMaps(f, t) == (IF f.types[t].cmap THEN {"Color map"} ELSE {}) \cup (IF f.types[t].vmap THEN {"Value map"} ELSE {})
+\* what a DrillholeGroup node holds for its holes (file version 2.1), relative to the node
+CatPaths == {"Concatenated Data", "Concatenated Data/Attributes Jsons", "Concatenated Data/Data",
+             "Concatenated Data/Data/DEPTH", "Concatenated Data/Data/log", "Concatenated Data/Index",
+             "Concatenated Data/Index/DEPTH", "Concatenated Data/Index/Property Group IDs",
+             "Concatenated Data/Index/Surveys", "Concatenated Data/Index/log",
+             "Concatenated Data/Property Group IDs", "Concatenated Data/Surveys"}
+CatFatal == {"Concatenated Data", "Concatenated Data/Attributes Jsons", "Concatenated Data/Data/DEPTH",
+             "Concatenated Data/Data/log", "Concatenated Data/Property Group IDs", "Concatenated Data/Surveys"}
 FlatContainers == {"Data", "Groups", "Objects", "Types", "Group types", "Object types", "Data types"}
 
 \* ------------------------------------------------------------------ items
@@ -96,12 +123,13 @@ Items(f) ==
     {It("pattr", Proj, a) : a \in ProjectAttrs}
     \cup {It("flat", Proj, a) : a \in FlatContainers}
     \cup {It("rootlink", Root, "Root")}
-    \cup {It("entry", e, "") : e \in {Root} \cup Nodes(f)}
-    \cup UNION {{It("eattr", e, a) : a \in EAttrs(f, e)} : e \in {Root} \cup Nodes(f)}
-    \cup {It("typelink", e, "Type") : e \in {Root} \cup Nodes(f)}
-    \cup UNION {{It("childcont", e, c) : c \in ChildConts(f, e)} : e \in {Root} \cup Nodes(f)}
-    \cup {It("childlink", n, "") : n \in Nodes(f)}
-    \cup UNION {{It("dataset", n, d) : d \in Datasets(f, n)} : n \in Nodes(f)}
+    \cup {It("entry", e, "") : e \in {Root} \cup Stored(f)}
+    \cup UNION {{It("eattr", e, a) : a \in EAttrs(f, e)} : e \in {Root} \cup Stored(f)}
+    \cup {It("typelink", e, "Type") : e \in {Root} \cup Stored(f)}
+    \cup UNION {{It("childcont", e, c) : c \in ChildConts(f, e)} : e \in {Root} \cup Stored(f)}
+    \cup {It("childlink", n, "") : n \in Stored(f)}
+    \cup UNION {{It("dataset", n, d) : d \in Datasets(f, n)} : n \in Stored(f)}
+    \cup UNION {{It("cdata", g, c) : c \in CatPaths} : g \in DrillGroups(f)}
     \cup {It("pgcont", o, "PropertyGroups") : o \in {o \in ObjectNodes(f) : PGsOf(f, o) # {}}}
     \cup {It("pgblock", p, "") : p \in 1..Len(f.pgs)}
     \cup UNION {{It("pgattr", p, a) : a \in PGAttrs} : p \in 1..Len(f.pgs)}
@@ -132,6 +160,8 @@ Class(f, i) ==
       [] i.k = "typelink" -> "mandatory"                  \* "must include a hard link to their type"
       [] i.k = "childlink" -> "mandatory"                 \* not named optional by the property: weaker clause
       [] i.k = "dataset" -> "mandatory"                   \* Data / Vertices / Cells are listed without "optional"
+      [] i.k = "cdata" -> "mandatory"                     \* the datasets of v2 drillhole groups; the documents (v1.0) do
+                                                          \* not know them: judged like datasets, by the weaker clause
       [] i.k = "eattr" -> IF i.a \in MandatoryEAttrs(f, i.n) THEN "mandatory" ELSE "optional"
       [] i.k = "childcont" -> IF ContLinks(f, i.n, i.a) = {} THEN "optional" ELSE "mandatory"   \* "an empty child container"
       [] i.k = "pgcont" -> "optional"                     \* PropertyGroups is not mentioned in the documents
@@ -142,20 +172,23 @@ Class(f, i) ==
       [] i.k = "tmapattr" -> "optional"
 
 \* entities an item describes: the node owning the attribute / dataset; the linked child of a link; everything
-\* stored in a container (its own node when the container is empty); the users of a type; the owner of a block
+\* stored in a container (its own node when the container is empty); the users of a type; the property group
+\* of a block (so the OTHER groups of the same object are bystanders of every item of the block)
 Describes(f, i) ==
     CASE i.k = "pattr" -> {Proj}
       [] i.k = "flat" ->
             (CASE i.a = "Data" -> DataNodes(f)
                [] i.a = "Groups" -> {Root} \cup GroupNodes(f)
-               [] i.a = "Objects" -> ObjectNodes(f)
+               [] i.a = "Objects" -> ObjectNodes(f) \cap Stored(f)
                [] i.a = "Types" -> {Root} \cup Nodes(f)
                [] i.a = "Group types" -> {Root} \cup GroupNodes(f)
                [] i.a = "Object types" -> ObjectNodes(f)
-               [] i.a = "Data types" -> DataNodes(f))
-      [] i.k \in {"rootlink", "entry", "eattr", "typelink", "childlink", "dataset", "pgcont"} -> {i.n}
+               [] i.a = "Data types" -> DataNodes(f) \cup CatNodes(f))
+      [] i.k \in {"rootlink", "entry", "eattr", "typelink", "childlink", "dataset"} -> {i.n}
+      [] i.k = "pgcont" -> PgEnts(f, i.n)
+      [] i.k = "cdata" -> {i.n} \cup Holes(f, i.n)
       [] i.k = "childcont" -> IF ContLinks(f, i.n, i.a) = {} THEN {i.n} ELSE ContLinks(f, i.n, i.a)
-      [] i.k \in {"pgblock", "pgattr"} -> {f.pgs[i.n].obj}
+      [] i.k \in {"pgblock", "pgattr"} -> {PgEnt(i.n)}
       [] i.k \in {"tentry", "tattr", "tmap", "tmapattr"} -> Users(f, i.n)
 Tolerated(f, i) ==
     IF Class(f, i) = "optional" THEN Describes(f, i) ELSE Describes(f, i) \cup Desc(f, Describes(f, i))
@@ -188,9 +221,11 @@ Reparented(f) ==
 Fails(f, i) ==
     \/ i.k = "typelink" /\ i.n # Root /\ KindOf(f, i.n) \in {"group", "object"}
           \* fetch_attributes: no "Type" -> type attributes {} -> create_object_or_group falls to the abstract base
-    \/ i.k = "flat" /\ i.a = "Objects" /\ ObjectNodes(f) # {}      \* h5file[name]["Objects"] KeyError (h5_reader.py:66)
+    \/ i.k = "flat" /\ i.a = "Objects" /\ ObjectNodes(f) \cap Stored(f) # {}      \* h5file[name]["Objects"] KeyError (h5_reader.py:66)
     \/ i.k = "flat" /\ i.a = "Data" /\ DataNodes(f) # {}
+    \/ i.k = "cdata" /\ i.a \in CatFatal        \* Concatenator.fetch_* get None and index / iterate it
     \/ i.k = "tattr" /\ i.a = "ID" /\ f.types[i.n].tk \in {"group", "object"} /\ i.n # 1
+          /\ f.types[i.n].cls # "Drillhole"      \* (a hole takes its type from "Object Type ID" of its record)
           \* the class is looked up by the type uid (Workspace.create_object_or_group); RootGroup falls back to its default
     \/ i.k = "eattr" /\ i.a = "Name" /\ ClsOf(f, i.n) = "Grid2D"
           \* ObjectBase.__init__ appends a default name AFTER on_file=True: the setter writes, mode "r" refuses
@@ -205,19 +240,29 @@ Lost(f, i) ==
       [] i.k = "eattr" /\ i.a = "ID" -> {i.n}
             \* Entity.__init__ draws a fresh uid; children are then looked up under the fresh uid: none
       [] i.k = "typelink" /\ KindOf(f, i.n) = "data" -> {i.n}       \* create_data returns None
-      [] i.k = "tattr" /\ i.a = "Primitive type" -> Users(f, i.n)   \* create_data finds no class: None
+      [] i.k = "pgcont" -> PgEnts(f, i.n)                           \* fetch_property_groups: KeyError -> {}
+      [] i.k = "pgblock" -> {PgEnt(i.n)}
+      [] i.k = "pgattr" /\ i.a = "ID" -> {PgEnt(i.n)}               \* PropertyGroup.__init__ draws a fresh uid
+      [] i.k = "tattr" /\ i.a = "Primitive type" -> Users(f, i.n) \ CatNodes(f)   \* create_data finds no class: None
+      [] i.k = "dataset" /\ i.a = "Concatenated object IDs" -> Holes(f, i.n)
       [] OTHER -> {}
 Changed(f, i) ==
-    CASE i.k = "pattr" -> {Proj}
+    CASE i.k = "pattr" -> IF i.a = "Version" /\ DrillGroups(f) # {} THEN {} ELSE {Proj}   \* (those are built as 2.1 = default)
       [] i.k = "eattr" -> IF i.a \in NonDefault(f, i.n) THEN {i.n} ELSE {}
-      [] i.k = "dataset" -> {i.n}                         \* fetch_values / fetch_array_attribute return None
-      [] i.k = "pgcont" -> {i.n}
-      [] i.k = "pgblock" -> {f.pgs[i.n].obj}
+      [] i.k = "dataset" -> IF i.a = "Concatenated object IDs" THEN {} ELSE {i.n}
+                                                          \* fetch_values / fetch_array_attribute return None
+      [] i.k = "cdata" -> Holes(f, i.n)                   \* surveys / logs / depth tables of the holes are not found
+      [] i.k = "flat" -> IF i.a \in {"Types", "Data types"} THEN CatNodes(f) ELSE {}   \* fetch_type of the logs raises
+      [] i.k = "tentry" -> IF f.types[i.n].cls \in {"catdepth", "catlog"} THEN CatNodes(f) ELSE {}
       [] i.k = "pgattr" ->
-            IF i.a \in {"Group Name", "ID", "Properties"}
+            IF \/ i.a = "Properties"
+               \/ (i.a = "Group Name" /\ f.pgs[i.n].named)        \* default name "property_group" = an unnamed group's
                \/ (i.a = "Association" /\ ClsOf(f, f.pgs[i.n].obj) = "Grid2D")    \* default VERTEX, grid data are CELL
-            THEN {f.pgs[i.n].obj} ELSE {}
-      [] i.k = "tattr" -> IF f.types[i.n].tk = "data" /\ i.a \in {"Description", "ID"} THEN Users(f, i.n) ELSE {}
+            THEN {PgEnt(i.n)} ELSE {}
+      [] i.k = "tattr" ->
+            IF f.types[i.n].cls \in {"catdepth", "catlog"}
+            THEN (IF i.a \in {"ID", "Primitive type"} THEN CatNodes(f) ELSE {})
+            ELSE (IF f.types[i.n].tk = "data" /\ i.a \in {"Description", "ID"} THEN Users(f, i.n) ELSE {})
       [] i.k \in {"tmap", "tmapattr"} -> Users(f, i.n)
       [] i.k = "rootlink" ->
             {Root} \cup (IF "RebuildRootFlatOrder" \in Deviations THEN Reparented(f) ELSE {})
@@ -231,9 +276,13 @@ MaybeChanged(f, i) ==
     THEN Users(f, i.n) ELSE {}
 Read(f, i) ==
     IF Fails(f, i) THEN [err |-> TRUE, absent |-> {}, altered |-> {}, maybe |-> {}, extra |-> 0]
-    ELSE LET gone == Lost(f, i) \cup Desc(f, Lost(f, i)) IN
-         [err |-> FALSE, absent |-> gone, altered |-> Changed(f, i) \ gone, maybe |-> MaybeChanged(f, i) \ gone,
-          extra |-> IF i.k = "rootlink" \/ (i.k = "eattr" /\ i.a = "ID") THEN 1 ELSE 0]
+    ELSE LET \* an object without ID: fetch_attributes reads the blocks under the uid of the flat entry, so the
+             \* property groups come back (same uid) attached to the object with the fresh uid
+             kept == IF i.k = "eattr" /\ i.a = "ID" THEN PgEnts(f, i.n) ELSE {}
+             gone == (Lost(f, i) \cup Desc(f, Lost(f, i))) \ kept IN
+         [err |-> FALSE, absent |-> gone, altered |-> (Changed(f, i) \cup kept) \ gone,
+          maybe |-> MaybeChanged(f, i) \ gone,
+          extra |-> IF i.k = "rootlink" \/ (i.k \in {"eattr", "pgattr"} /\ i.a = "ID") THEN 1 ELSE 0]
 
 \* ------------------------------------------------------------------ behaviour
 NoItem == It("none", 0, "")
@@ -252,15 +301,27 @@ Building(s) == phase = "build" /\ stage <= s /\ stage' = s /\ UNCHANGED <<phase,
 \* ContainerGroup.create(ws, parent=p, uid=...) ; low: the uid sorts below / above every group written so far
 AddGroup(p, low) ==
     /\ Building(1)
-    /\ Cardinality(GroupNodes(file)) < MaxGroups
+    /\ Cardinality(ContGroups(file)) < MaxGroups
     /\ LET r == IF low THEN MinOf(Ranks(file)) - 1 ELSE MaxOf(Ranks(file)) + 1
            t == TypeIdx(file, "group", "Container")
        IN file' = [file EXCEPT !.nodes = Append(@, Node("group", "ContainerGroup", p, r, t)),
                                 !.types = IF t > Len(@) THEN Append(@, Ty("group", "Container", FALSE, FALSE)) ELSE @]
+\* DrillholeGroup.create(ws, parent=p) ; Drillhole.create(ws, parent=group, collar=, surveys=) ;
+\* hole.add_data({"log": {"depth": ..., "values": ...}}) - one group node, one concatenated hole, four types
+AddDrillGroup(p, low) ==
+    /\ Building(1)
+    /\ Cardinality(DrillGroups(file)) < MaxDrill
+    /\ LET r == IF low THEN MinOf(Ranks(file)) - 1 ELSE MaxOf(Ranks(file)) + 1
+           g == Len(file.nodes) + 1
+           t == Len(file.types)
+       IN file' = [file EXCEPT
+                     !.nodes = @ \o <<Node("group", "DrillholeGroup", p, r, t + 1), Node("object", "Drillhole", g, 0, t + 2)>>,
+                     !.types = @ \o <<Ty("group", "DrillholeGroup", FALSE, FALSE), Ty("object", "Drillhole", FALSE, FALSE),
+                                      Ty("data", "catdepth", FALSE, FALSE), Ty("data", "catlog", FALSE, FALSE)>>]
 \* <Class>.create(ws, parent=p, vertices / cells / grid parameters)
 AddObject(p, c) ==
     /\ Building(2)
-    /\ Cardinality(ObjectNodes(file)) < MaxObjects
+    /\ Cardinality(ObjectNodes(file) \cap Stored(file)) < MaxObjects
     /\ LET t == TypeIdx(file, "object", c)
        IN file' = [file EXCEPT !.nodes = Append(@, Node("object", c, p, 0, t)),
                                 !.types = IF t > Len(@) THEN Append(@, Ty("object", c, FALSE, FALSE)) ELSE @]
@@ -273,12 +334,16 @@ AddData(o, prim, share) ==
                                 !.types = IF share = 0
                                           THEN Append(@, Ty("data", prim, prim = "floatcmap", prim = "ref"))
                                           ELSE @]
-\* obj.add_data_to_group(members, name)
-AddPG(o, members) ==
+\* obj.find_or_create_property_group(uid=, name= or nothing) + add_properties(members); an unnamed group gets the
+\* default name of PropertyGroup.__init__; low: the uid sorts below / above every block written so far
+PgRanks(f) == {0} \cup {f.pgs[p].rank : p \in 1..Len(f.pgs)}
+AddPG(o, members, named, low) ==
     /\ Building(4)
     /\ Len(file.pgs) < MaxPGs
-    /\ \A p \in 1..Len(file.pgs) : ~(file.pgs[p].obj = o /\ file.pgs[p].members = members)
-    /\ file' = [file EXCEPT !.pgs = Append(@, [obj |-> o, members |-> members])]
+    /\ (low => Len(file.pgs) > 0)
+    /\ (~named => UnnamedPGs /\ \A p \in PGsOf(file, o) : file.pgs[p].named)       \* one default name per object
+    /\ LET r == IF low THEN MinOf(PgRanks(file)) - 1 ELSE MaxOf(PgRanks(file)) + 1
+       IN file' = [file EXCEPT !.pgs = Append(@, [obj |-> o, members |-> members, named |-> named, rank |-> r])]
 
 \* the single fault: one attribute, link or dataset is removed with raw h5py
 DeleteItem(i) ==
@@ -296,10 +361,12 @@ PGMembers(o) == {m \in SUBSET {d \in Children(file, o) : file.nodes[d].kind = "d
                      m # {} /\ Cardinality(m) <= 2}
 Next ==
     \/ /\ phase = "build"         \* (guard first: Items(file) is only built where a fault can be injected)
-       /\ \/ \E p \in {Root} \cup GroupNodes(file), low \in BOOLEAN : AddGroup(p, low)
-          \/ \E p \in {Root} \cup GroupNodes(file), c \in ObjClasses : AddObject(p, c)
-          \/ \E o \in ObjectNodes(file), prim \in Prims : \E share \in ShareChoices(prim) : AddData(o, prim, share)
-          \/ \E o \in ObjectNodes(file) : \E m \in PGMembers(o) : AddPG(o, m)
+       /\ \/ \E p \in {Root} \cup ContGroups(file), low \in BOOLEAN : AddGroup(p, low)
+          \/ \E p \in {Root} \cup ContGroups(file), low \in BOOLEAN : AddDrillGroup(p, low)
+          \/ \E p \in {Root} \cup ContGroups(file), c \in ObjClasses : AddObject(p, c)
+          \/ \E o \in ObjectNodes(file) \cap Stored(file), prim \in Prims :
+                \E share \in ShareChoices(prim) : AddData(o, prim, share)
+          \/ \E o \in ObjectNodes(file) \cap Stored(file), named, low \in BOOLEAN : \E m \in PGMembers(o) : AddPG(o, m, named, low)
           \/ \E i \in Items(file) : DeleteItem(i)
     \/ Open
 Spec == Init /\ [][Next]_vars
@@ -345,7 +412,8 @@ TypeOK ==
 RECURSIVE SetToSeq(_)     \* increasing order
 SetToSeq(S) == IF S = {} THEN <<>> ELSE LET x == MinOf(S) IN <<x>> \o SetToSeq(S \ {x})
 FileJson(f) == [nodes |-> f.nodes, types |-> f.types,
-                pgs |-> [p \in 1..Len(f.pgs) |-> [obj |-> f.pgs[p].obj, members |-> SetToSeq(f.pgs[p].members)]]]
+                pgs |-> [p \in 1..Len(f.pgs) |-> [obj |-> f.pgs[p].obj, members |-> SetToSeq(f.pgs[p].members),
+                                                  named |-> f.pgs[p].named, rank |-> f.pgs[p].rank]]]
 ExportFile ==
     (phase = "build") =>
         PrintT(<<"FILE", TLCFP(file), TLCFP(<<file, 1>>),
